@@ -654,11 +654,14 @@ class Ctx:
         }
         if self.exhaustive is not None:
             ev["coverage"]["exhaustive"] = self.exhaustive
-        os.makedirs(os.path.join(VERIF, "evidence"), exist_ok=True)
-        tmp = os.path.join(VERIF, "evidence", ".%s.%d.tmp" % (self.prop, os.getpid()))
+        # tools that run the checks against a deliberately changed tree (tools/try_mut.sh, run_seeded.py, revert_test.sh) set
+        # VERIF_EVIDENCE_DIR so that the committed evidence always describes /repo itself
+        evdir = os.environ.get("VERIF_EVIDENCE_DIR") or os.path.join(VERIF, "evidence")
+        os.makedirs(evdir, exist_ok=True)
+        tmp = os.path.join(evdir, ".%s.%d.tmp" % (self.prop, os.getpid()))
         with open(tmp, "w") as f:
             json.dump(ev, f, indent=1, sort_keys=False)
-        os.replace(tmp, os.path.join(VERIF, "evidence", self.prop + ".json"))
+        os.replace(tmp, os.path.join(evdir, self.prop + ".json"))
         shutil.rmtree(self.rundir, ignore_errors=True)
         for l in lines:
             print(l)
